@@ -498,3 +498,88 @@ func (d *DNode) Shape() string {
 	}
 	return strings.Join(out, " ")
 }
+
+// Derive builds a source tree related to t (for merge workloads): a clone of t in which subtrees are
+// randomly dropped, leaves changed or unset, and new containers / entries added, so that every overlap
+// class (disjoint, subset, superset, same keys different leaves, nested) occurs.
+func Derive(r *rand.Rand, s *Schema, t *DNode, kids []*SNode, o DataOpts) *DNode {
+	d := derive(r, s, t, kids, o)
+	if t.S != nil && t.S.Kind == List {
+		// an entry keeps its identity
+		for _, kn := range t.S.Keys {
+			if l := t.Leaves[kn]; l != nil {
+				d.Leaves[kn] = l.Clone()
+			}
+		}
+	}
+	return d
+}
+
+func derive(r *rand.Rand, s *Schema, t *DNode, kids []*SNode, o DataOpts) *DNode {
+	fresh := NewDNode(t.S)
+	fill(r, s, fresh, kids, o)
+	out := NewDNode(t.S)
+	mode := r.Intn(6)
+	switch mode {
+	case 0:
+		return fresh // unrelated
+	case 1:
+		return out // empty source
+	}
+	for _, c := range flatten(kids) {
+		keep := r.Intn(3) != 0
+		switch c.Kind {
+		case Leaf, LeafList:
+			if c.IsKey() {
+				if l := t.Leaves[c.Name]; l != nil {
+					out.Leaves[c.Name] = l.Clone()
+				}
+				continue
+			}
+			switch {
+			case keep && t.Leaves[c.Name] != nil && r.Intn(2) == 0:
+				out.Leaves[c.Name] = t.Leaves[c.Name].Clone()
+			case fresh.Leaves[c.Name] != nil && r.Intn(2) == 0:
+				out.Leaves[c.Name] = fresh.Leaves[c.Name]
+			}
+		case Container:
+			tk := t.Kids[c.Name]
+			switch {
+			case tk != nil && keep:
+				out.Kids[c.Name] = Derive(r, s, tk, c.Children, o)
+			case fresh.Kids[c.Name] != nil && r.Intn(2) == 0:
+				out.Kids[c.Name] = fresh.Kids[c.Name]
+			}
+		case List:
+			tl := t.Lists[c.Name]
+			fl := fresh.Lists[c.Name]
+			if (tl == nil || !keep) && (fl == nil || r.Intn(2) == 0) {
+				continue
+			}
+			nl := &DList{S: c}
+			if tl != nil && keep {
+				for _, e := range tl.Entries {
+					if r.Intn(3) != 0 {
+						nl.Entries = append(nl.Entries, Derive(r, s, e, c.Children, o))
+					}
+				}
+			}
+			if fl != nil {
+				for _, e := range fl.Entries {
+					if dup, _ := nl.Find(e.Key()); dup == nil && r.Intn(2) == 0 {
+						// new entries go first sometimes: source order is not target order
+						if r.Intn(3) == 0 {
+							nl.Entries = append([]*DNode{e}, nl.Entries...)
+						} else {
+							nl.Entries = append(nl.Entries, e)
+						}
+					}
+				}
+			}
+			if len(nl.Entries) > 0 || o.EmptyLists {
+				out.Lists[c.Name] = nl
+			}
+		}
+	}
+	return out
+}
